@@ -3,6 +3,8 @@ import UralModel.Lemmas.Canonicalize
 import UralModel.Lemmas.Quote
 import UralModel.Lemmas.QuoteIdem
 import UralModel.Lemmas.QuoteSplit
+import UralModel.Lemmas.CanonModes
+import UralModel.Lemmas.Normpath
 /-!
 # C03, first half: `normalize_url` reads its input only through what `canonicalize_url` keeps
 
@@ -33,12 +35,8 @@ open Ural.Py Ural.UrlParts Ural.Quote Ural.Canonicalize Ural.Normalize
 /-! ## the safe unquoters -/
 
 theorem safelyUnquote_idem (U : List UInt8) (hU : (0x25 : UInt8) ∈ U) (hA : AsciiSet U) (s : Str) :
-    safelyUnquote U (safelyUnquote U s) = safelyUnquote U s := by
-  have hout := outTok_unquoteToks U (tokens s) (wf_tokens s)
-  have h : tokens (safelyUnquote U s) = unquoteToks U (tokens s) :=
-    tokens_render_of_canon _ (fun t ht => canon_of_outTok hU (wf_tokens s) (hout t ht))
-  unfold safelyUnquote at h ⊢
-  rw [h, unquoteToks_idem U hU hA]
+    safelyUnquote U (safelyUnquote U s) = safelyUnquote U s :=
+  safelyUnquote_idem' U hU hA s
 
 theorem pathU : (0x25 : UInt8) ∈ Gen.Quote.unsafeForPath ∧ AsciiSet Gen.Quote.unsafeForPath := by
   refine ⟨by decide, ?_⟩; unfold AsciiSet; decide
@@ -100,10 +98,39 @@ theorem tokens_eq_nil {s : Str} (h : tokens s = []) : s = [] := by
 
 theorem renderTok_ne_nil (t : Tok) : renderTok t ≠ [] := by cases t <;> simp [renderTok]
 
+theorem utf8_ne_nil (c : Char) : utf8 c ≠ [] := by
+  unfold utf8
+  intro h0
+  have := String.length_utf8EncodeChar c
+  rw [h0] at this
+  have h1 := Char.utf8Size_pos c
+  simp at this
+  omega
+
+theorem escTok_ne_nil (t : Tok) : escTok t ≠ [] := by
+  cases t with
+  | raw c =>
+    simp only [escTok]
+    by_cases hs : staysEscaped c = true
+    · simp only [hs, if_true]
+      cases hu : utf8 c with
+      | nil => exact absurd hu (utf8_ne_nil c)
+      | cons x xs => simp
+    · simp [hs]
+  | esc h1 h2 => simp [escTok]
+  | stray => simp [escTok]
+
+theorem escapeRaw_eq_nil {ts : List Tok} (h : escapeRaw ts = []) : ts = [] := by
+  cases ts with
+  | nil => rfl
+  | cons t r =>
+    rw [escapeRaw_cons] at h
+    exact absurd (List.append_eq_nil_iff.mp h).1 (escTok_ne_nil t)
+
 theorem safelyUnquote_eq_nil {U : List UInt8} {s : Str} (h : safelyUnquote U s = []) : s = [] := by
   unfold safelyUnquote render at h
-  have h1 : unquoteToks U (tokens s) = [] := by
-    cases hts : unquoteToks U (tokens s) with
+  have h1 : unquoteToks U (escapeRaw (tokens s)) = [] := by
+    cases hts : unquoteToks U (escapeRaw (tokens s)) with
     | nil => rfl
     | cons t ts =>
       rw [hts] at h
@@ -111,7 +138,7 @@ theorem safelyUnquote_eq_nil {U : List UInt8} {s : Str} (h : safelyUnquote U s =
       exact absurd h.1 (renderTok_ne_nil t)
   unfold unquoteToks at h1
   have h2 := (assemble_eq_nil _ _ h1).1
-  exact tokens_eq_nil (by simpa using h2)
+  exact tokens_eq_nil (escapeRaw_eq_nil (by simpa using h2))
 
 /-! ## the path -/
 
@@ -127,6 +154,63 @@ def PathHyp : Prop := ∀ x : Str, absP x = true →
   normpath (normpath (unquotePath x)) = normpath (unquotePath x) ∧
   (normpath (unquotePath x) ≠ [] →
     normpath (normpath (unquotePath x) ++ ['/']) = normpath (unquotePath x))
+
+/-! ### `PathHyp` holds (from the path lemmas of C01/C02, `Lemmas/Normpath.lean`) -/
+
+open Ural.Normpath in
+/-- `normpath` of an absolute path is the plain spelling of its resolved segments -/
+theorem normpath_of_abs (q : Str) (h : absPath q = true) :
+    normpath q = renderSegs ((segView q).1, false) false := by
+  cases q with
+  | nil => decide
+  | cons c r =>
+    have hc : c = '/' := by
+      simp only [absPath, List.isEmpty_cons, Bool.false_or, startsWith] at h
+      have : '/' = c := by simpa using h
+      exact this.symm
+    subst hc
+    rw [normpath_abs]
+    unfold renderSegs
+    by_cases hF : (segView ('/' :: r)).1 = []
+    · simp [hF]
+    · have : (segView ('/' :: r)).1.isEmpty = false := by
+        cases hh : (segView ('/' :: r)).1 with
+        | nil => exact absurd hh hF
+        | cons _ _ => rfl
+      simp [hF, this]
+
+open Ural.Normpath in
+theorem pathHyp : PathHyp := by
+  intro x hx
+  have hx' : absPath x = true := hx
+  have hq : absPath (unquotePath x) = true := absPath_unquotePath x hx'
+  have hunq : Unq (unquotePath x) := Normpath.unquotePath_idem x
+  generalize unquotePath x = q at hq hunq
+  have hnp := normpath_of_abs q hq
+  have hok := viewOk_segView q
+  generalize hF : (segView q).1 = F at hnp hok
+  have hN : ∀ y ∈ F, Normal y := by rw [← hF]; exact hok.1
+  have hU : ∀ y ∈ F, Unq y := by
+    intro y hy
+    rw [← hF] at hy
+    exact unq_segments hunq y (segView_subset q y hy)
+  have hv1 : ViewOk (F, false) := ⟨hN, fun _ => rfl⟩
+  rw [hnp]
+  refine ⟨unq_render (F, false) false hU, ?_, ?_⟩
+  · rw [normpath_of_abs _ (absPath_render _ _), segView_render _ _ hv1]
+  · intro hne
+    have hF0 : F ≠ [] := by
+      intro e
+      apply hne
+      simp [renderSegs, e]
+    have hemp : F.isEmpty = false := by
+      cases F with
+      | nil => exact absurd rfl hF0
+      | cons _ _ => rfl
+    have e : renderSegs (F, false) false ++ ['/'] = renderSegs (F, true) false := by
+      simp [renderSegs, hemp]
+    have hv2 : ViewOk (F, true) := ⟨hN, fun e0 => absurd e0 hF0⟩
+    rw [e, normpath_of_abs _ (absPath_render _ _), segView_render _ _ hv2]
 
 theorem resolveUnquoted_true (y : Str) : resolveUnquoted true y = normpath y := by
   unfold resolveUnquoted
@@ -223,7 +307,7 @@ theorem normpath_canonPath (hPH : PathHyp) (path : Str) (hAbs : absP path = true
     · rw [h, h1, h1, h2]
     · have hu : unquotePath (np ++ ['/']) = np ++ ['/'] := by
         show safelyUnquote _ (np ++ '/' :: []) = _
-        rw [safelyUnquote_append_sep _ sep_slash' (by decide)]
+        rw [safelyUnquote_append_sep _ sep_slash' (by decide) (by decide)]
         have e1 : safelyUnquote Gen.Quote.unsafeForPath np = np := h1
         have e2 : safelyUnquote Gen.Quote.unsafeForPath [] = [] := by decide
         rw [e1, e2]
